@@ -24,6 +24,7 @@ func C13(r *core.Run) {
 	r.Entry = []string{"sourcewalk.mapProperties", "j5convert.buildProperty", "j5convert.visitEnumNode", "j5convert.enumBuilder.addValue", "j5convert builders (addMessage/addEnum/addService)"}
 	provNumbers(r)
 	provEnumNumbers(r)
+	enumNumberingAgrees(r)
 	provNoReorder(r)
 	provTailAppend(r)
 	provNames(r)
